@@ -755,3 +755,64 @@ def check_C16(tier_, sd, consts_ok, consts_detail):
            "identity_cases": len(projs), "write_roundtrip_cases": len(esc),
            "samples": [projs[1].files[0][1].decode(), esc[1].files[0][1].decode()]}
     return {"coverage": cov, "violations": violations}
+
+# ------------------------------------------------------------------ C14 tags
+def check_C14(tier_, sd, consts_ok, consts_detail):
+    rng = Rng(sd).fork("C14")
+    names = ["A", "AB", "B", "BA", "ABA", ""]
+    contents = ["", "A", "v\n", "v\r\nw", "B A"]
+    maxlen = 5 if tier_ == "quick" else 6
+    lines = []
+    for n in range(maxlen + 1):
+        for combo in itertools.product("ABx", repeat=n): lines.append("".join(combo))
+    probe = "A AB B BA ABA x"
+    cases = []
+    k = 0
+    for npairs in (1, 2, 3):
+        for seq in itertools.product(names, repeat=npairs):
+            for li, line in enumerate(lines):
+                k += 1
+                ops = []
+                for j, nm in enumerate(seq):
+                    c = contents[(k + j) % len(contents)]
+                    ops += ["c" + hx(nm), "s" + hx(c)]
+                le = "\n" if k % 2 else "\r\n"
+                ops += ["i" + hx(line), "i" + hx(probe), "c" + hx("ZZ"), "c" + hx("Q")]
+                cases.append("T %s %s" % (hx(le), " ".join(ops)))
+    env = dict(os.environ, VPH_TAG_REPEAT="8")
+    impl = run_impl(cases, env=env); model = run_model(cases)
+    bad = diff_cases(cases, impl, model)
+    # whole-file lifecycle: the listener skips directives without output; unused tags are errors; no indentation
+    projs = []
+    for j in range(300 if tier_ == "quick" else 3000):
+        r = rng.fork("f%d" % j)
+        L = ["    -TXTPP#tag NAME"]
+        for _ in range(r.below(3)):
+            L.append(r.choice(["    =TXTPP#temp t%d.tmp\n    =body" % r.below(2), "    +TXTPP#", "    ~TXTPP#after inc.txt", "    ~TXTPP#tag OTHER"]))
+        L.append(r.choice(["    /TXTPP#write stored line", "    /TXTPP#include inc.txt", "    /TXTPP#write two\n    /lines\n    /", "text in between"]))
+        L.append(r.choice(["a NAME b", "NAME NAME", "no use", "  indented NAME", "xNAMEy NAME"]))
+        if r.chance(1, 3): L.append("late NAME")
+        p = Project("lc%d" % j); p.files = [("/s.txt.txtpp", ("\n".join(L) + "\n").encode()), ("/inc.txt", r.choice([b"inc\n", b"i1\r\ni2", b""]))]
+        p.inputs = ["s.txt"]; p.sched = [0] * 4
+        projs.append(p)
+    oi, om = both(projs, oracle=False)
+    pbad = [j for j in range(len(projs)) if (oi[j]["verdict"], oi[j]["F"] if oi[j]["verdict"] == "ok" else None) != (om[j]["verdict"], om[j]["F"] if om[j]["verdict"] == "ok" else None)]
+    violations = []
+    for kk in bad[:5]:
+        nd = impl[kk].startswith("T nondeterministic")
+        violations.append({"found": True, "replay": {"property": "C14", "what": ("the result differs between runs (hash-map iteration order)" if nd else
+                           "TagState behaves differently from the specification (Tags.v; theorems of props/C14.v)"),
+                           "case": cases[kk], "case_readable": decode_case(cases[kk]), "implementation": impl[kk], "model(spec)": model[kk]}})
+    for j in pbad[:3]:
+        violations.append(proj_violation("C14", "tag lifecycle in a whole file differs from the specification", projs[j], oi[j], om[j]))
+    outcomes = collections.Counter()
+    for m in model:
+        t = m.split(" ")
+        outcomes["create-err" if "err" in t[1:7] else "stored"] += 1
+    cov = {"evaluations": len(cases) * 8 + len(projs), "distinct_nontrivial": len(set(m for m in model if " ok " in m)),
+           "rule": "every sequence of <= 3 create/try_store pairs with names from {A, AB, B, BA, ABA, empty} (prefix-related names included) x every target line over {A,B,x} up to length %d "
+                   "x contents rotated over {empty, A, v LF, v CRLF w, B A}, followed by a probe line revealing the remaining store and two more creates; "
+                   "each case run 8 times in-process with fresh hash seeds (all 8 must agree); plus whole-file lifecycle cases; distinct_nontrivial = distinct model observations with at least one successful op" % maxlen,
+           "exhaustive": True, "exhaustive_bound": "<= 3 tags, lines of <= %d symbols" % maxlen, "tag_cases": len(cases), "repeats_per_case": 8, "whole_file_cases": len(projs),
+           "outcome_distribution": dict(outcomes), "samples": [decode_case(cases[len(cases) // 2]), decode_case(cases[-1])]}
+    return {"coverage": cov, "violations": violations}
